@@ -1,6 +1,7 @@
 import WfProofs.StateStoreSeq
-/-! Lemmas for C20: with every writer under the store lock, the order in which operations
-complete is a serialisation order.  Generic in the backend. -/
+/-! Lemmas for C20: with every writer under the store lock — taken and given back only through
+`async with` — the order in which operations complete is a serialisation order, whatever the
+scheduler does, cancellations included.  Generic in the backend. -/
 namespace StateStore
 
 variable {σ : Type}
@@ -15,11 +16,38 @@ def EditLaw (B : Backend σ) : Prop :=
     runBody B (B.begin st).1 (B.begin st).2 (chunksOf (.edit cs)).1 (chunksOf (.edit cs)).2
       = (B.step st (.edit cs.flatten)).1
 
+/-- what the body did to the store is determined by the object's latest value -/
+def PublishLaw (B : Backend σ) : Prop :=
+  ∀ (st : σ) (a b : Root), B.publish (B.publish st a) b = B.publish st b
+
+/-- a block that is left without saving after the mutations `ran` (none of which raised) leaves
+the store as the sequential `edit` of the part of `ran` the backend keeps -/
+def AbortLaw (B : Backend σ) : Prop :=
+  ∀ (st : σ) (ran : List Mut) (w : Root), runMuts (B.begin st).2 ran = (w, none) →
+    B.publish (B.begin st).1 w = (B.step st (.edit (B.kept ran))).1
+
+theorem serial_eq_serialBy (B : Backend σ) (prog : List COp) (st : σ) (order : List Nat) :
+    serial B prog st order = serialBy B (fun t => prog[t]?) st order := rfl
+
+theorem serialBy_append (B : Backend σ) (f : Nat → Option COp) (st : σ) (log : List Nat) (t : Nat) (op : COp)
+    (h : f t = some op) : serialBy B f st (log ++ [t]) = seqOp B (serialBy B f st log) op := by
+  simp [serialBy, List.foldl_append, h, seqOp]
+
+theorem serialBy_congr (B : Backend σ) (f g : Nat → Option COp) (order : List Nat) :
+    ∀ st : σ, (∀ t, t ∈ order → f t = g t) → serialBy B f st order = serialBy B g st order := by
+  induction order with
+  | nil => intro st _; rfl
+  | cons t ts ih =>
+    intro st h
+    simp only [serialBy, List.foldl_cons]
+    rw [h t (by simp)]
+    exact ih _ (fun t' ht' => h t' (by simp [ht']))
+
 theorem serial_append (B : Backend σ) (prog : List COp) (st : σ) (log : List Nat) (t : Nat) (op : COp)
     (h : prog[t]? = some op) : serial B prog st (log ++ [t]) = seqOp B (serial B prog st log) op := by
   simp [serial, List.foldl_append, h, seqOp]
 
-/-! ### the two backends satisfy the law -/
+/-! ### the two backends satisfy the laws -/
 
 theorem mem_runBody (rest : List (List Mut)) : ∀ (m : Mem) (w : Root) (c : List Mut),
     runBody memBackend m w c rest = { m with root := (runMuts w (c ++ rest.flatten)).1 } := by
@@ -55,6 +83,15 @@ theorem mem_editLaw : EditLaw memBackend := by
     simp only [memBackend, Mem.step]
     cases h : runMuts m.root (c ++ rest.flatten) with
     | mk r e => cases e <;> rfl
+
+theorem mem_publishLaw : PublishLaw memBackend := by
+  intro m a b
+  rfl
+
+theorem mem_abortLaw : AbortLaw memBackend := by
+  intro m ran w h
+  simp only [memBackend] at h
+  simp only [memBackend, Backend.kept, if_true, Mem.step, h]
 
 theorem sql_runBody (rest : List (List Mut)) : ∀ (q : Sql) (w : Root) (c : List Mut),
     runBody sqlBackend q w c rest =
@@ -94,17 +131,34 @@ theorem sql_editLaw : EditLaw sqlBackend := by
     cases h : runMuts q.load.2 (c ++ rest.flatten) with
     | mk r e => cases e <;> rfl
 
-/-! ### the invariant -/
+theorem sql_publishLaw : PublishLaw sqlBackend := by
+  intro q a b
+  rfl
 
-structure Inv (B : Backend σ) (prog : List COp) (st0 : σ) (s : Sys σ) : Prop where
-  len : s.pcs.length = prog.length
-  nodup : s.log.Nodup
-  logDone : ∀ t : Nat, t ∈ s.log ↔ s.pcs[t]? = some Pc.done
-  free : s.holder = none → s.store = serial B prog st0 s.log ∧ ∀ (t : Nat) c w, s.pcs[t]? ≠ some (Pc.body c w)
-  held : ∀ t : Nat, s.holder = some t → ∃ cs c rest w, prog[t]? = some (.edit cs) ∧
-    s.pcs[t]? = some (Pc.body (c :: rest) w) ∧
-    runBody B s.store w c rest = seqOp B (serial B prog st0 s.log) (.edit cs) ∧
-    ∀ (t' : Nat) c' w', t' ≠ t → s.pcs[t']? ≠ some (Pc.body c' w')
+/-- the copy the body worked on is dropped: what remains is `load` (which creates a missing row),
+i.e. the empty edit -/
+theorem sql_abortLaw : AbortLaw sqlBackend := by
+  intro q ran w _
+  simp only [sqlBackend, Backend.kept, Sql.step, Sql.edit]
+  cases q with
+  | mk sc ty row held =>
+    cases row with
+    | none => simp [Sql.load, Sql.save, runMuts]
+    | some d => simp [Sql.load, Sql.save, runMuts]
+
+/-! ### positions of a task -/
+
+/-- the task's operation has had its effect on the store (it is in the log) -/
+def Pc.eff : Pc → Bool
+  | .done => true
+  | .aborted _ => true
+  | _ => false
+
+/-- the task is inside an `edit_state` body -/
+def Pc.inBody : Pc → Bool
+  | .body .. => true
+  | .bodyC .. => true
+  | _ => false
 
 theorem getElem?_set_pc (pcs : List Pc) (t t' : Nat) (p : Pc) :
     (pcs.set t p)[t']? = if t = t' then (if t < pcs.length then some p else none) else pcs[t']? := by
@@ -112,68 +166,280 @@ theorem getElem?_set_pc (pcs : List Pc) (t t' : Nat) (p : Pc) :
   · subst h
     by_cases hl : t < pcs.length
     · simp [hl]
-    · simp [hl, List.getElem?_eq_none (Nat.le_of_not_lt hl)]
+    · simp [hl]
   · simp [h, List.getElem?_set_ne h]
 
+theorem lt_of_getElem?_pc {pcs : List Pc} {t : Nat} {p : Pc} (h : pcs[t]? = some p) : t < pcs.length := by
+  rcases Nat.lt_or_ge t pcs.length with hl | hl
+  · exact hl
+  · rw [List.getElem?_eq_none hl] at h; cases h
+
+theorem effOp_set_ne (prog : List COp) (pcs : List Pc) (t t' : Nat) (p : Pc) (h : t ≠ t') :
+    effOp prog (pcs.set t p) t' = effOp prog pcs t' := by
+  simp only [effOp, List.getElem?_set_ne h]
+
+theorem effOp_of_not_aborted (prog : List COp) (pcs : List Pc) (t : Nat)
+    (h : ∀ k, pcs[t]? ≠ some (.aborted k)) : effOp prog pcs t = prog[t]? := by
+  unfold effOp
+  cases hp : pcs[t]? with
+  | none => rfl
+  | some p =>
+    cases p with
+    | aborted k => exact absurd hp (h k)
+    | _ => rfl
+
+/-- changing the position of a task that is not in the order does not change the serial run -/
+theorem serialBy_set (B : Backend σ) (prog : List COp) (pcs : List Pc) (st0 : σ) (order : List Nat)
+    (t : Nat) (p : Pc) (h : t ∉ order) :
+    serialBy B (effOp prog (pcs.set t p)) st0 order = serialBy B (effOp prog pcs) st0 order := by
+  apply serialBy_congr
+  intro t' ht'
+  apply effOp_set_ne
+  intro he
+  subst he
+  exact h ht'
+
+/-! ### the invariant -/
+
+/-- the serial run of the log so far -/
+def fold (B : Backend σ) (prog : List COp) (st0 : σ) (s : Sys σ) : σ := serialBy B (effOp prog s.pcs) st0 s.log
+
+structure Inv (B : Backend σ) (prog : List COp) (st0 : σ) (s : Sys σ) : Prop where
+  len : s.pcs.length = prog.length
+  nodup : s.log.Nodup
+  logEff : ∀ t : Nat, t ∈ s.log ↔ ∃ p, s.pcs[t]? = some p ∧ p.eff = true
+  free : s.holder = none → s.store = fold B prog st0 s ∧ ∀ (t : Nat) p, s.pcs[t]? = some p → p.inBody = false
+  held : ∀ t : Nat, s.holder = some t → ∃ cs ran c rest w, prog[t]? = some (.edit cs) ∧
+    (s.pcs[t]? = some (Pc.body ran (c :: rest) w) ∨ s.pcs[t]? = some (Pc.bodyC ran (c :: rest) w)) ∧
+    runBody B s.store w c rest = seqOp B (fold B prog st0 s) (.edit cs) ∧
+    s.store = B.publish (B.begin (fold B prog st0 s)).1 w ∧
+    runMuts (B.begin (fold B prog st0 s)).2 ran = (w, none) ∧
+    ∀ (t' : Nat) p, t' ≠ t → s.pcs[t']? = some p → p.inBody = false
+
 theorem inv_init (B : Backend σ) (prog : List COp) (st0 : σ) : Inv B prog st0 (Sys.init st0 prog.length) := by
+  have hidle : ∀ (t : Nat) (p : Pc), (List.replicate prog.length Pc.idle)[t]? = some p → p = Pc.idle := by
+    intro t p h
+    rw [List.getElem?_replicate] at h
+    split at h
+    · cases h; rfl
+    · cases h
   refine ⟨by simp [Sys.init], by simp [Sys.init], ?_, ?_, ?_⟩
   · intro t
     simp only [Sys.init, List.not_mem_nil, false_iff]
-    intro h
-    rw [List.getElem?_replicate] at h
-    split at h <;> cases h
+    rintro ⟨p, hp, he⟩
+    rw [hidle t p hp] at he
+    cases he
   · intro _
-    refine ⟨by simp [Sys.init, serial], ?_⟩
-    intro t c w h
-    simp only [Sys.init] at h
-    rw [List.getElem?_replicate] at h
-    split at h <;> cases h
+    refine ⟨by simp [Sys.init, fold, serialBy], ?_⟩
+    intro t p h
+    rw [hidle t p h]
+    rfl
   · intro t h
     simp [Sys.init] at h
 
+/-- membership in the log after one more task has taken effect -/
+theorem logEff_push (s : Sys σ) (t : Nat) (pNew : Pc) (htl : t < s.pcs.length) (hn : pNew.eff = true)
+    (hld : ∀ t' : Nat, t' ∈ s.log ↔ ∃ p, s.pcs[t']? = some p ∧ p.eff = true) (t' : Nat) :
+    t' ∈ s.log ++ [t] ↔ ∃ p, (s.pcs.set t pNew)[t']? = some p ∧ p.eff = true := by
+  simp only [List.mem_append, List.mem_singleton, getElem?_set_pc]
+  by_cases h : t = t'
+  · subst h
+    simp only [if_true, htl]
+    constructor
+    · intro _; exact ⟨pNew, rfl, hn⟩
+    · intro _; exact Or.inr trivial
+  · simp only [h, if_false]
+    rw [hld t']
+    constructor
+    · rintro (h1 | h1)
+      · exact h1
+      · exact absurd h1.symm h
+    · exact Or.inl
+
+/-- membership in the log when a task that has not taken effect moves to another such position -/
+theorem logEff_move (s : Sys σ) (t : Nat) (pOld pNew : Pc) (hq : s.pcs[t]? = some pOld)
+    (ho : pOld.eff = false) (hn : pNew.eff = false)
+    (hld : ∀ t' : Nat, t' ∈ s.log ↔ ∃ p, s.pcs[t']? = some p ∧ p.eff = true) (t' : Nat) :
+    t' ∈ s.log ↔ ∃ p, (s.pcs.set t pNew)[t']? = some p ∧ p.eff = true := by
+  simp only [getElem?_set_pc]
+  by_cases h : t = t'
+  · subst h
+    simp only [if_true, lt_of_getElem?_pc hq]
+    rw [hld t, hq]
+    constructor
+    · rintro ⟨p, hp, he⟩
+      cases hp
+      rw [ho] at he
+      cases he
+    · rintro ⟨p, hp, he⟩
+      cases hp
+      rw [hn] at he
+      cases he
+  · simp only [h, if_false]
+    exact hld t'
+
+theorem not_mem_log (s : Sys σ) (t : Nat) (pOld : Pc) (hq : s.pcs[t]? = some pOld) (ho : pOld.eff = false)
+    (hld : ∀ t' : Nat, t' ∈ s.log ↔ ∃ p, s.pcs[t']? = some p ∧ p.eff = true) : t ∉ s.log := by
+  intro hm
+  obtain ⟨p, hp, he⟩ := (hld t).1 hm
+  rw [hq] at hp
+  cases hp
+  rw [ho] at he
+  cases he
+
+theorem nodup_push (log : List Nat) (t : Nat) (hnd : log.Nodup) (h : t ∉ log) : (log ++ [t]).Nodup := by
+  rw [List.nodup_append]
+  refine ⟨hnd, by simp, ?_⟩
+  intro a ha b hb
+  simp only [List.mem_singleton] at hb
+  subst hb
+  intro hab
+  subst hab
+  exact h ha
+
+/-- positions outside a body after task `t` moved to a position outside a body -/
+theorem noBody_set (pcs : List Pc) (t : Nat) (pNew : Pc) (hn : pNew.inBody = false)
+    (hoth : ∀ (t' : Nat) p, t' ≠ t → pcs[t']? = some p → p.inBody = false)
+    (t' : Nat) (p : Pc) (h : (pcs.set t pNew)[t']? = some p) : p.inBody = false := by
+  rw [getElem?_set_pc] at h
+  by_cases h2 : t = t'
+  · subst h2
+    simp only [if_true] at h
+    split at h
+    · cases h; exact hn
+    · cases h
+  · simp only [h2, if_false] at h
+    exact hoth t' p (Ne.symm h2) h
+
+/-- a task that is neither in the log nor inside a body moves to another such position (enqueue,
+cancellation request, delivery of the cancellation outside a body); the FIFO may change -/
+theorem inv_quiet (B : Backend σ) (prog : List COp) (st0 : σ) (s : Sys σ) (t : Nat) (pOld pNew : Pc) (q : List Nat)
+    (I : Inv B prog st0 s) (hq : s.pcs[t]? = some pOld)
+    (ho1 : pOld.eff = false) (ho2 : pOld.inBody = false) (hn1 : pNew.eff = false) (hn2 : pNew.inBody = false) :
+    Inv B prog st0 { s with queue := q, pcs := s.pcs.set t pNew } := by
+  obtain ⟨hlen, hnd, hld, hfr, hheld⟩ := I
+  have htlog : t ∉ s.log := not_mem_log s t pOld hq ho1 hld
+  have hfold : fold B prog st0 { s with queue := q, pcs := s.pcs.set t pNew } = fold B prog st0 s :=
+    serialBy_set B prog s.pcs st0 s.log t pNew htlog
+  refine ⟨by simp [hlen], hnd, logEff_move s t pOld pNew hq ho1 hn1 hld, ?_, ?_⟩
+  · intro hh
+    obtain ⟨h1, h2⟩ := hfr hh
+    refine ⟨by rw [hfold]; exact h1, ?_⟩
+    exact noBody_set s.pcs t pNew hn2 (fun t' p _ hp => h2 t' p hp)
+  · intro th hh
+    obtain ⟨cs, ran, c, rest, w, e1, e2, e3, e4, e5, e6⟩ := hheld th hh
+    have hne : t ≠ th := by
+      intro he
+      subst he
+      rw [hq] at e2
+      rcases e2 with e2 | e2 <;> (cases e2; cases ho2)
+    refine ⟨cs, ran, c, rest, w, e1, ?_, ?_, ?_, ?_, ?_⟩
+    · simp only [getElem?_set_pc, hne, if_false]; exact e2
+    · rw [hfold]; exact e3
+    · rw [hfold]; exact e4
+    · rw [hfold]; exact e5
+    · intro t' p hne' hp
+      rw [getElem?_set_pc] at hp
+      by_cases h3 : t = t'
+      · subst h3
+        simp only [if_true] at hp
+        split at hp
+        · cases hp; exact hn2
+        · cases hp
+      · simp only [h3, if_false] at hp
+        exact e6 t' p hne' hp
+
+/-- the cancellation request reaches a task inside its body: nothing but the mark changes -/
+theorem inv_cancelBody (B : Backend σ) (prog : List COp) (st0 : σ) (s : Sys σ) (t : Nat)
+    (ran : List Mut) (rest : List (List Mut)) (w : Root)
+    (I : Inv B prog st0 s) (hq : s.pcs[t]? = some (Pc.body ran rest w)) :
+    Inv B prog st0 { s with pcs := s.pcs.set t (Pc.bodyC ran rest w) } := by
+  obtain ⟨hlen, hnd, hld, hfr, hheld⟩ := I
+  have htlog : t ∉ s.log := not_mem_log s t _ hq rfl hld
+  have hfold : fold B prog st0 { s with pcs := s.pcs.set t (Pc.bodyC ran rest w) } = fold B prog st0 s :=
+    serialBy_set B prog s.pcs st0 s.log t _ htlog
+  have htl := lt_of_getElem?_pc hq
+  refine ⟨by simp [hlen], hnd, logEff_move s t _ _ hq rfl rfl hld, ?_, ?_⟩
+  · intro hh
+    have := (hfr hh).2 t _ hq
+    cases this
+  · intro th hh
+    obtain ⟨cs, ran2, c, rest2, w2, e1, e2, e3, e4, e5, e6⟩ := hheld th hh
+    have hth : th = t := by
+      apply Decidable.byContradiction
+      intro hne
+      have := e6 t _ (fun h => hne h.symm) hq
+      cases this
+    subst hth
+    rw [hq] at e2
+    have hpay : ran = ran2 ∧ rest = c :: rest2 ∧ w = w2 := by
+      rcases e2 with e2 | e2
+      · simp only [Option.some.injEq, Pc.body.injEq] at e2; exact e2
+      · cases e2
+    obtain ⟨h1, h2, h3⟩ := hpay
+    subst h1 h2 h3
+    refine ⟨cs, ran, c, rest2, w, e1, Or.inr (by simp [htl]), ?_, ?_, ?_, ?_⟩
+    · rw [hfold]; exact e3
+    · rw [hfold]; exact e4
+    · rw [hfold]; exact e5
+    · intro t' p hne' hp
+      rw [getElem?_set_pc] at hp
+      simp only [Ne.symm hne', if_false] at hp
+      exact e6 t' p hne' hp
+
+/-- the `CancelledError` leaves the open block of the lock holder: no save, the lock is released -/
+theorem inv_abort (B : Backend σ) (habort : AbortLaw B) (prog : List COp) (st0 : σ) (s : Sys σ) (t : Nat)
+    (ran : List Mut) (rest : List (List Mut)) (w : Root)
+    (I : Inv B prog st0 s) (hq : s.pcs[t]? = some (Pc.bodyC ran rest w)) (hh : s.holder = some t) :
+    Inv B prog st0 { s with holder := none, pcs := s.pcs.set t (Pc.aborted (B.kept ran)), log := s.log ++ [t] } := by
+  obtain ⟨hlen, hnd, hld, hfr, hheld⟩ := I
+  have htlog : t ∉ s.log := not_mem_log s t _ hq rfl hld
+  have htl := lt_of_getElem?_pc hq
+  obtain ⟨cs, ran2, c, rest2, w2, e1, e2, e3, e4, e5, e6⟩ := hheld t hh
+  rw [hq] at e2
+  have hpay : ran = ran2 ∧ rest = c :: rest2 ∧ w = w2 := by
+    rcases e2 with e2 | e2
+    · cases e2
+    · simp only [Option.some.injEq, Pc.bodyC.injEq] at e2; exact e2
+  obtain ⟨h1, h2, h3⟩ := hpay
+  subst h1 h2 h3
+  refine ⟨by simp [hlen], nodup_push s.log t hnd htlog, logEff_push s t _ htl rfl hld, ?_, ?_⟩
+  · intro _
+    refine ⟨?_, ?_⟩
+    · show s.store = serialBy B (effOp prog (s.pcs.set t (Pc.aborted (B.kept ran)))) st0 (s.log ++ [t])
+      have hop : effOp prog (s.pcs.set t (Pc.aborted (B.kept ran))) t = some (.edit [B.kept ran]) := by
+        simp [effOp, htl]
+      rw [serialBy_append B _ st0 s.log t _ hop, serialBy_set B prog s.pcs st0 s.log t _ htlog]
+      rw [e4, habort _ ran w e5]
+      simp [seqOp, COp.toOp, fold]
+    · exact noBody_set s.pcs t _ rfl e6
+  · intro t' h; simp at h
+
 /-- one chunk of the body of the lock holder -/
 theorem inv_runChunk (B : Backend σ) (prog : List COp) (st0 : σ) (s : Sys σ) (t : Nat)
-    (cs : List (List Mut)) (c : List Mut) (rest : List (List Mut)) (w : Root)
+    (cs : List (List Mut)) (ran c : List Mut) (rest : List (List Mut)) (w : Root) (pOld : Pc)
     (hlen : s.pcs.length = prog.length) (hnd : s.log.Nodup)
-    (hld : ∀ t', t' ∈ s.log ↔ s.pcs[t']? = some .done)
-    (hp : prog[t]? = some (.edit cs)) (htl : t < s.pcs.length) (hnot : s.pcs[t]? ≠ some .done)
-    (hbody : runBody B s.store w c rest = seqOp B (serial B prog st0 s.log) (.edit cs))
-    (hoth : ∀ (t' : Nat) c' w', t' ≠ t → s.pcs[t']? ≠ some (Pc.body c' w')) :
-    Inv B prog st0 (runChunk B s t c rest w) := by
-  have htlog : t ∉ s.log := fun h => hnot ((hld t).1 h)
-  have finish : ∀ st' : σ, st' = seqOp B (serial B prog st0 s.log) (.edit cs) →
+    (hld : ∀ t' : Nat, t' ∈ s.log ↔ ∃ p, s.pcs[t']? = some p ∧ p.eff = true)
+    (hp : prog[t]? = some (.edit cs)) (hq : s.pcs[t]? = some pOld) (ho : pOld.eff = false)
+    (hh : s.holder = some t)
+    (hbody : runBody B s.store w c rest = seqOp B (fold B prog st0 s) (.edit cs))
+    (hst : ∀ w', B.publish s.store w' = B.publish (B.begin (fold B prog st0 s)).1 w')
+    (hran : runMuts (B.begin (fold B prog st0 s)).2 ran = (w, none))
+    (hoth : ∀ (t' : Nat) p, t' ≠ t → s.pcs[t']? = some p → p.inBody = false) :
+    Inv B prog st0 (runChunk B s t ran c rest w) := by
+  have htlog : t ∉ s.log := not_mem_log s t pOld hq ho hld
+  have htl := lt_of_getElem?_pc hq
+  have finish : ∀ st' : σ, st' = seqOp B (fold B prog st0 s) (.edit cs) →
       Inv B prog st0 { s with store := st', holder := none, pcs := s.pcs.set t .done, log := s.log ++ [t] } := by
-    intro st' hst
-    refine ⟨by simp [hlen], ?_, ?_, ?_, ?_⟩
-    · simp only []
-      rw [List.nodup_append]
-      refine ⟨hnd, by simp, ?_⟩
-      intro a ha b hb
-      simp only [List.mem_singleton] at hb
-      subst hb
-      intro hab
-      subst hab
-      exact htlog ha
-    · intro t'
-      simp only [List.mem_append, List.mem_singleton, getElem?_set_pc]
-      by_cases h : t = t'
-      · subst h; simp [htl]
-      · simp only [h, if_false]
-        rw [hld t']
-        constructor
-        · rintro (h1 | h1)
-          · exact h1
-          · exact absurd h1.symm h
-        · exact Or.inl
+    intro st' hst'
+    refine ⟨by simp [hlen], nodup_push s.log t hnd htlog, logEff_push s t _ htl rfl hld, ?_, ?_⟩
     · intro _
-      refine ⟨?_, ?_⟩
-      · simp only []
-        rw [serial_append B prog st0 s.log t _ hp, hst]
-      · intro t' c' w'
-        simp only [getElem?_set_pc]
-        by_cases h : t = t'
-        · subst h; simp [htl]
-        · simp only [h, if_false]; exact hoth t' c' w' (Ne.symm h)
+      refine ⟨?_, noBody_set s.pcs t _ rfl hoth⟩
+      show st' = serialBy B (effOp prog (s.pcs.set t Pc.done)) st0 (s.log ++ [t])
+      have hop : effOp prog (s.pcs.set t Pc.done) t = some (.edit cs) := by
+        simp [effOp, htl, hp]
+      rw [serialBy_append B _ st0 s.log t _ hop, serialBy_set B prog s.pcs st0 s.log t _ htlog, hst']
+      rfl
     · intro t' h; simp at h
   unfold runChunk
   cases hm : runMuts w c with
@@ -193,71 +459,48 @@ theorem inv_runChunk (B : Backend σ) (prog : List COp) (st0 : σ) (s : Sys σ) 
         simp [runBody, hm]
       | cons c' rest' =>
         simp only []
-        refine ⟨by simp [hlen], hnd, ?_, ?_, ?_⟩
-        · intro t'
-          simp only [getElem?_set_pc]
-          by_cases h : t = t'
-          · subst h
-            simp only [if_true, htl]
-            constructor
-            · intro h1; exact absurd h1 htlog
-            · intro h1; cases h1
-          · simp only [h, if_false]; exact hld t'
-        · intro h; simp at h
+        have hfold : fold B prog st0 { s with store := B.publish s.store w', pcs := s.pcs.set t (Pc.body (ran ++ c) (c' :: rest') w') }
+            = fold B prog st0 s := serialBy_set B prog s.pcs st0 s.log t _ htlog
+        refine ⟨by simp [hlen], hnd, logEff_move s t pOld _ hq ho rfl hld, ?_, ?_⟩
+        · intro h
+          simp only [hh] at h
+          cases h
         · intro t' ht'
-          simp only [Option.some.injEq] at ht'
+          simp only [hh, Option.some.injEq] at ht'
           subst ht'
-          refine ⟨cs, c', rest', w', hp, by simp [getElem?_set_pc, htl], ?_, ?_⟩
-          · simp only []
-            rw [← hbody]
+          refine ⟨cs, ran ++ c, c', rest', w', hp, Or.inl (by simp [htl]), ?_, ?_, ?_, ?_⟩
+          · rw [hfold, ← hbody]
             simp [runBody, hm]
-          · intro t'' c'' w'' hne
-            simp only [getElem?_set_pc]
-            simp only [Ne.symm hne, if_false]
-            exact hoth t'' c'' w'' hne
+          · rw [hfold]; exact hst w'
+          · rw [hfold, runMuts_append, hran]
+            exact hm
+          · intro t'' p hne hp''
+            rw [getElem?_set_pc] at hp''
+            simp only [Ne.symm hne, if_false] at hp''
+            exact hoth t'' p hne hp''
 
 /-- a task gets the (free) lock, or needs none, and starts -/
-theorem inv_enter (B : Backend σ) (hedit : EditLaw B) (prog : List COp) (st0 : σ) (s : Sys σ) (t : Nat) (op : COp)
+theorem inv_enter (B : Backend σ) (hedit : EditLaw B) (prog : List COp) (st0 : σ) (s : Sys σ)
+    (t : Nat) (op : COp) (pOld : Pc)
     (I : Inv B prog st0 s) (hfree : s.holder = none) (hp : prog[t]? = some op)
-    (htl : t < s.pcs.length) (hnot : s.pcs[t]? ≠ some .done) (q : List Nat) :
+    (hq : s.pcs[t]? = some pOld) (ho : pOld.eff = false) (q : List Nat) :
     Inv B prog st0 (enter B { s with queue := q } t op) := by
   obtain ⟨hlen, hnd, hld, hfr, hheld⟩ := I
   obtain ⟨hstore, hnobody⟩ := hfr hfree
-  have htlog : t ∉ s.log := fun h => hnot ((hld t).1 h)
+  have htlog : t ∉ s.log := not_mem_log s t pOld hq ho hld
+  have htl := lt_of_getElem?_pc hq
   have single : ∀ o : COp, prog[t]? = some o →
       Inv B prog st0 { s with queue := q, store := (B.step s.store o.toOp).1, pcs := s.pcs.set t .done,
                               log := s.log ++ [t] } := by
-    intro o ho
-    refine ⟨by simp [hlen], ?_, ?_, ?_, ?_⟩
-    · simp only []
-      rw [List.nodup_append]
-      refine ⟨hnd, by simp, ?_⟩
-      intro a ha b hb
-      simp only [List.mem_singleton] at hb
-      subst hb
-      intro hab
-      subst hab
-      exact htlog ha
-    · intro t'
-      simp only [List.mem_append, List.mem_singleton, getElem?_set_pc]
-      by_cases h : t = t'
-      · subst h; simp [htl]
-      · simp only [h, if_false]
-        rw [hld t']
-        constructor
-        · rintro (h1 | h1)
-          · exact h1
-          · exact absurd h1.symm h
-        · exact Or.inl
+    intro o ho'
+    refine ⟨by simp [hlen], nodup_push s.log t hnd htlog, logEff_push s t _ htl rfl hld, ?_, ?_⟩
     · intro _
-      refine ⟨?_, ?_⟩
-      · simp only []
-        rw [serial_append B prog st0 s.log t _ ho, hstore, seqOp]
-      · intro t' c' w'
-        simp only [getElem?_set_pc]
-        by_cases h : t = t'
-        · subst h; simp [htl]
-        · simp only [h, if_false]; exact hnobody t' c' w'
+      refine ⟨?_, noBody_set s.pcs t _ rfl (fun t' p _ h => hnobody t' p h)⟩
+      show (B.step s.store o.toOp).1 = serialBy B (effOp prog (s.pcs.set t Pc.done)) st0 (s.log ++ [t])
+      have hop : effOp prog (s.pcs.set t Pc.done) t = some o := by
+        simp [effOp, htl, ho']
+      rw [serialBy_append B _ st0 s.log t _ hop, serialBy_set B prog s.pcs st0 s.log t _ htlog, hstore]
+      rfl
     · intro t' h
       simp only [hfree] at h
       cases h
@@ -267,15 +510,22 @@ theorem inv_enter (B : Backend σ) (hedit : EditLaw B) (prog : List COp) (st0 : 
   | clear => exact single _ hp
   | edit cs =>
     simp only [enter]
-    apply inv_runChunk B prog st0 _ t cs _ _ _ (by simpa using hlen) (by simpa using hnd)
-      (by simpa using hld) hp (by simpa using htl) (by simpa using hnot)
-    · simp only []
+    have hfold : fold B prog st0 { s with queue := q, store := (B.begin s.store).1, holder := some t } = fold B prog st0 s := rfl
+    apply inv_runChunk B prog st0 _ t cs [] _ _ _ pOld (by simpa using hlen) (by simpa using hnd)
+      (by simpa using hld) hp (by simpa using hq) ho rfl
+    · rw [hfold]
+      simp only []
       rw [hedit s.store cs, hstore]
       rfl
-    · intro t' c' w' _
-      exact hnobody t' c' w'
+    · intro w'
+      rw [hfold, hstore]
+    · rw [hfold, hstore]
+      rfl
+    · intro t' p _ h
+      exact hnobody t' p h
 
-theorem inv_step (B : Backend σ) (hlock : ∀ op, B.locks op = true) (hedit : EditLaw B)
+theorem inv_run (B : Backend σ) (hlock : ∀ op, B.locks op = true) (hscoped : ∀ op, B.scopedLock op = true)
+    (hedit : EditLaw B) (hpub : PublishLaw B) (habort : AbortLaw B)
     (prog : List COp) (st0 : σ) (s s' : Sys σ) (t : Nat)
     (I : Inv B prog st0 s) (h : Sys.run B prog s t = some s') : Inv B prog st0 s' := by
   unfold Sys.run at h
@@ -285,104 +535,204 @@ theorem inv_step (B : Backend σ) (hlock : ∀ op, B.locks op = true) (hedit : E
     cases hq : s.pcs[t]? with
     | none => rw [hp, hq] at h; simp at h
     | some pc =>
-      have htl : t < s.pcs.length := by
-        rcases Nat.lt_or_ge t s.pcs.length with hl | hl
-        · exact hl
-        · rw [List.getElem?_eq_none hl] at hq; cases hq
       rw [hp, hq] at h
       cases pc with
       | done => simp at h
+      | cancelled => simp at h
+      | aborted k => simp at h
       | idle =>
         simp only [hlock op, if_true] at h
-        by_cases hf : s.holder = none ∧ s.queue = []
+        by_cases hf : s.holder = none ∧ s.queue.all (futCancelled s.pcs) = true
         · simp only [hf, and_self, if_true, Option.some.injEq] at h
           subst h
-          have := inv_enter B hedit prog st0 s t op I hf.1 hp htl (by rw [hq]; simp) s.queue
+          have := inv_enter B hedit prog st0 s t op _ I hf.1 hp hq rfl s.queue
           simpa using this
         · simp only [hf, if_false, Option.some.injEq] at h
           subst h
-          obtain ⟨hlen, hnd, hld, hfr, hheld⟩ := I
-          have hlog : t ∉ s.log := fun hm => by
-            have := (hld t).1 hm
-            rw [hq] at this
-            cases this
-          refine ⟨by simp [hlen], hnd, ?_, ?_, ?_⟩
-          · intro t'
-            simp only [getElem?_set_pc]
-            by_cases h2 : t = t'
-            · subst h2
-              simp only [if_true, htl]
-              constructor
-              · intro h1; exact absurd h1 hlog
-              · intro h1; cases h1
-            · simp only [h2, if_false]; exact hld t'
-          · intro hh
-            obtain ⟨h1, h2⟩ := hfr hh
-            refine ⟨h1, ?_⟩
-            intro t' c' w'
-            simp only [getElem?_set_pc]
-            by_cases h3 : t = t'
-            · subst h3; simp [htl]
-            · simp only [h3, if_false]; exact h2 t' c' w'
-          · intro th hh
-            obtain ⟨cs, c, rest, w, e1, e2, e3, e4⟩ := hheld th hh
-            have hne : t ≠ th := by
-              intro he
-              subst he
-              rw [hq] at e2
-              cases e2
-            refine ⟨cs, c, rest, w, e1, ?_, e3, ?_⟩
-            · simp only [getElem?_set_pc, hne, if_false]; exact e2
-            · intro t' c' w' hne'
-              simp only [getElem?_set_pc]
-              by_cases h3 : t = t'
-              · subst h3; simp [htl]
-              · simp only [h3, if_false]; exact e4 t' c' w' hne'
+          exact inv_quiet B prog st0 s t _ _ _ I hq rfl rfl rfl rfl
       | waiting =>
         by_cases hf : s.holder = none ∧ s.queue.head? = some t
         · simp only [hf, and_self, if_true, Option.some.injEq] at h
           subst h
-          have := inv_enter B hedit prog st0 s t op I hf.1 hp htl (by rw [hq]; simp) s.queue.tail
+          have := inv_enter B hedit prog st0 s t op _ I hf.1 hp hq rfl s.queue.tail
           simpa [hf.1] using this
         · simp only [hf, if_false] at h
           cases h
-      | body chunks w =>
+      | idleC =>
+        simp only [Option.some.injEq] at h
+        subst h
+        exact inv_quiet B prog st0 s t _ _ s.queue I hq rfl rfl rfl rfl
+      | waitC fc =>
+        simp only [hscoped op, if_true, Option.some.injEq] at h
+        subst h
+        exact inv_quiet B prog st0 s t _ _ _ I hq rfl rfl rfl rfl
+      | body ran chunks w =>
         cases chunks with
         | nil => simp at h
         | cons c rest =>
+          simp only [hscoped op, Bool.true_eq_false, or_false] at h
           by_cases hh : s.holder = some t
           · simp only [hh, if_true, Option.some.injEq] at h
             subst h
             obtain ⟨hlen, hnd, hld, hfr, hheld⟩ := I
-            obtain ⟨cs, c2, rest2, w2, e1, e2, e3, e4⟩ := hheld t hh
+            obtain ⟨cs, ran2, c2, rest2, w2, e1, e2, e3, e4, e5, e6⟩ := hheld t hh
             rw [hq] at e2
-            simp only [Option.some.injEq, Pc.body.injEq, List.cons.injEq] at e2
-            obtain ⟨⟨ec, er⟩, ew⟩ := e2
-            subst ec er ew
-            exact inv_runChunk B prog st0 s t cs c rest w hlen hnd hld e1 htl (by rw [hq]; simp) e3 e4
+            have hpay : ran = ran2 ∧ c = c2 ∧ rest = rest2 ∧ w = w2 := by
+              rcases e2 with e2 | e2
+              · simp only [Option.some.injEq, Pc.body.injEq, List.cons.injEq] at e2
+                exact ⟨e2.1, e2.2.1.1, e2.2.1.2, e2.2.2⟩
+              · cases e2
+            obtain ⟨h1, h2, h3, h4⟩ := hpay
+            subst h1 h2 h3 h4
+            refine inv_runChunk B prog st0 s t cs ran c rest w _ hlen hnd hld e1 hq rfl hh e3 ?_ e5 e6
+            intro w'
+            rw [e4, hpub]
           · simp only [hh, if_false] at h
             cases h
+      | bodyC ran chunks w =>
+        simp only [hscoped op, Bool.true_eq_false, or_false] at h
+        by_cases hh : s.holder = some t
+        · simp only [hh, if_true, Option.some.injEq] at h
+          subst h
+          exact inv_abort B habort prog st0 s t ran chunks w I hq hh
+        · simp only [hh, if_false] at h
+          cases h
 
-theorem inv_runAll (B : Backend σ) (hlock : ∀ op, B.locks op = true) (hedit : EditLaw B)
-    (prog : List COp) (st0 : σ) (sched : List Nat) : ∀ (s s' : Sys σ),
-    Inv B prog st0 s → Sys.runAll B prog s sched = some s' → Inv B prog st0 s' := by
+theorem inv_cancel (B : Backend σ) (prog : List COp) (st0 : σ) (s s' : Sys σ) (t : Nat)
+    (I : Inv B prog st0 s) (h : Sys.cancel s t = some s') : Inv B prog st0 s' := by
+  unfold Sys.cancel at h
+  cases hq : s.pcs[t]? with
+  | none => rw [hq] at h; simp at h
+  | some pc =>
+    rw [hq] at h
+    cases pc with
+    | idle =>
+      simp only [Option.some.injEq] at h
+      subst h
+      exact inv_quiet B prog st0 s t _ _ s.queue I hq rfl rfl rfl rfl
+    | waiting =>
+      simp only [Option.some.injEq] at h
+      subst h
+      exact inv_quiet B prog st0 s t _ _ s.queue I hq rfl rfl rfl rfl
+    | body ran rest w =>
+      simp only [Option.some.injEq] at h
+      subst h
+      exact inv_cancelBody B prog st0 s t ran rest w I hq
+    | done => simp at h
+    | idleC => simp at h
+    | waitC fc => simp at h
+    | bodyC ran rest w => simp at h
+    | cancelled => simp at h
+    | aborted k => simp at h
+
+theorem inv_exec (B : Backend σ) (hlock : ∀ op, B.locks op = true) (hscoped : ∀ op, B.scopedLock op = true)
+    (hedit : EditLaw B) (hpub : PublishLaw B) (habort : AbortLaw B)
+    (prog : List COp) (st0 : σ) (s s' : Sys σ) (a : Act)
+    (I : Inv B prog st0 s) (h : Sys.exec B prog s a = some s') : Inv B prog st0 s' := by
+  cases a with
+  | run t => exact inv_run B hlock hscoped hedit hpub habort prog st0 s s' t I h
+  | cancel t => exact inv_cancel B prog st0 s s' t I h
+
+theorem inv_execAll (B : Backend σ) (hlock : ∀ op, B.locks op = true) (hscoped : ∀ op, B.scopedLock op = true)
+    (hedit : EditLaw B) (hpub : PublishLaw B) (habort : AbortLaw B)
+    (prog : List COp) (st0 : σ) (sched : List Act) : ∀ (s s' : Sys σ),
+    Inv B prog st0 s → Sys.execAll B prog s sched = some s' → Inv B prog st0 s' := by
   induction sched with
-  | nil => intro s s' I h; simp only [Sys.runAll, Option.some.injEq] at h; subst h; exact I
-  | cons t ts ih =>
+  | nil => intro s s' I h; simp only [Sys.execAll, Option.some.injEq] at h; subst h; exact I
+  | cons a as ih =>
     intro s s' I h
-    simp only [Sys.runAll] at h
-    cases hr : Sys.run B prog s t with
+    simp only [Sys.execAll] at h
+    cases hr : Sys.exec B prog s a with
     | none => rw [hr] at h; cases h
     | some s1 =>
       rw [hr] at h
-      exact ih s1 s' (inv_step B hlock hedit prog st0 s s1 t I hr) h
+      exact ih s1 s' (inv_exec B hlock hscoped hedit hpub habort prog st0 s s1 a I hr) h
+
+/-- a schedule without cancellations is a schedule -/
+theorem runAll_eq_execAll (B : Backend σ) (prog : List COp) (sched : List Nat) : ∀ s : Sys σ,
+    Sys.runAll B prog s sched = Sys.execAll B prog s (sched.map Act.run) := by
+  induction sched with
+  | nil => intro s; rfl
+  | cons t ts ih =>
+    intro s
+    simp only [Sys.runAll, List.map_cons, Sys.execAll, Sys.exec]
+    cases Sys.run B prog s t with
+    | none => rfl
+    | some s1 => exact ih s1
+
+/-- when every task has ended, the log is a serialisation order of the tasks that took effect -/
+theorem serialisable_of_inv_settled (B : Backend σ) (prog : List COp) (st0 : σ) (s : Sys σ)
+    (I : Inv B prog st0 s) (hd : s.allSettled = true) :
+    ∃ order : List Nat, order.Nodup ∧ (∀ t, t ∈ order ↔ ∃ p, s.pcs[t]? = some p ∧ p.eff = true) ∧
+      s.store = serialBy B (effOp prog s.pcs) st0 order := by
+  obtain ⟨hlen, hnd, hld, hfr, hheld⟩ := I
+  have hall : ∀ (t : Nat) (p : Pc), s.pcs[t]? = some p → p.settled = true := by
+    intro t p hp
+    have hmem : p ∈ s.pcs := List.mem_of_getElem? hp
+    unfold Sys.allSettled at hd
+    rw [List.all_eq_true] at hd
+    exact hd p hmem
+  have hfree : s.holder = none := by
+    cases hh : s.holder with
+    | none => rfl
+    | some t =>
+      obtain ⟨cs, ran, c, rest, w, _, e2, _⟩ := hheld t hh
+      rcases e2 with e2 | e2 <;> (have := hall t _ e2; cases this)
+  exact ⟨s.log, hnd, hld, (hfr hfree).1⟩
+
+theorem eff_iff (pcs : List Pc) (t : Nat) :
+    (∃ p, pcs[t]? = some p ∧ p.eff = true) ↔ (pcs[t]? = some Pc.done ∨ ∃ k, pcs[t]? = some (Pc.aborted k)) := by
+  constructor
+  · rintro ⟨p, hp, he⟩
+    cases p <;> first
+      | (cases he; done)
+      | exact Or.inl hp
+      | exact Or.inr ⟨_, hp⟩
+  · rintro (h | ⟨k, h⟩)
+    · exact ⟨_, h, rfl⟩
+    · exact ⟨_, h, rfl⟩
+
+/-- no task was cancelled inside its body: the serialisation order consists of exactly the
+completed tasks, each with its own operation -/
+theorem serialisable_of_inv_completed (B : Backend σ) (prog : List COp) (st0 : σ) (s : Sys σ)
+    (I : Inv B prog st0 s) (hd : s.allDoneOrCancelled = true) :
+    ∃ order : List Nat, order.Nodup ∧ (∀ t, t ∈ order ↔ s.pcs[t]? = some Pc.done) ∧
+      s.store = serial B prog st0 order := by
+  have hall : ∀ (t : Nat) (p : Pc), s.pcs[t]? = some p → p = Pc.done ∨ p = Pc.cancelled := by
+    intro t p hp
+    have hmem : p ∈ s.pcs := List.mem_of_getElem? hp
+    unfold Sys.allDoneOrCancelled at hd
+    rw [List.all_eq_true] at hd
+    have := hd p hmem
+    cases p <;> simp_all
+  have hset : s.allSettled = true := by
+    unfold Sys.allSettled
+    rw [List.all_eq_true]
+    intro p hp
+    obtain ⟨t, ht, hpt⟩ := List.getElem_of_mem hp
+    have : s.pcs[t]? = some p := by rw [List.getElem?_eq_getElem ht, hpt]
+    rcases hall t p this with h | h <;> (subst h; rfl)
+  obtain ⟨order, hnd, hmem, hst⟩ := serialisable_of_inv_settled B prog st0 s I hset
+  refine ⟨order, hnd, ?_, ?_⟩
+  · intro t
+    rw [hmem t, eff_iff]
+    constructor
+    · rintro (h | ⟨k, h⟩)
+      · exact h
+      · rcases hall t _ h with h' | h' <;> cases h'
+    · exact Or.inl
+  · rw [hst, serial_eq_serialBy]
+    apply serialBy_congr
+    intro t _
+    apply effOp_of_not_aborted
+    intro k h
+    rcases hall t _ h with h' | h' <;> cases h'
 
 /-- when all tasks are done the completion log is a serialisation order -/
 theorem serialisable_of_inv (B : Backend σ) (prog : List COp) (st0 : σ) (s : Sys σ)
     (I : Inv B prog st0 s) (hd : s.allDone = true) :
     ∃ order : List Nat, order.Nodup ∧ (∀ t, t ∈ order ↔ t < prog.length) ∧
       s.store = serial B prog st0 order := by
-  obtain ⟨hlen, hnd, hld, hfr, hheld⟩ := I
   have hall : ∀ (t : Nat) (p : Pc), s.pcs[t]? = some p → p = Pc.done := by
     intro t p hp
     have hmem : p ∈ s.pcs := List.mem_of_getElem? hp
@@ -390,53 +740,80 @@ theorem serialisable_of_inv (B : Backend σ) (prog : List COp) (st0 : σ) (s : S
     rw [List.all_eq_true] at hd
     have := hd p hmem
     cases p <;> simp_all
-  have hfree : s.holder = none := by
-    cases hh : s.holder with
-    | none => rfl
-    | some t =>
-      obtain ⟨cs, c, rest, w, _, e2, _, _⟩ := hheld t hh
-      have := hall t _ e2
-      cases this
-  refine ⟨s.log, hnd, ?_, (hfr hfree).1⟩
+  have hdc : s.allDoneOrCancelled = true := by
+    unfold Sys.allDoneOrCancelled
+    rw [List.all_eq_true]
+    intro p hp
+    obtain ⟨t, ht, hpt⟩ := List.getElem_of_mem hp
+    have : s.pcs[t]? = some p := by rw [List.getElem?_eq_getElem ht, hpt]
+    rw [hall t p this]
+  obtain ⟨order, hnd, hmem, hst⟩ := serialisable_of_inv_completed B prog st0 s I hdc
+  refine ⟨order, hnd, ?_, hst⟩
   intro t
-  rw [hld t]
+  rw [hmem t]
   constructor
   · intro h
-    rcases Nat.lt_or_ge t s.pcs.length with hl | hl
-    · rw [← hlen]; exact hl
-    · rw [List.getElem?_eq_none hl] at h; cases h
+    rw [← I.len]
+    exact lt_of_getElem?_pc h
   · intro h
-    have hl : t < s.pcs.length := by rw [hlen]; exact h
+    have hl : t < s.pcs.length := by rw [I.len]; exact h
     have : s.pcs[t]? = some s.pcs[t] := List.getElem?_eq_getElem hl
     rw [this, hall t _ this]
 
-/-- while an `edit_state` block holds the lock, no step of another task changes the store or
-completes an operation -/
-theorem no_write_inside_open_edit (B : Backend σ) (hlock : ∀ op, B.locks op = true)
-    (prog : List COp) (s s' : Sys σ) (e t : Nat) (hh : s.holder = some e) (hne : t ≠ e)
-    (h : Sys.run B prog s t = some s') : s'.store = s.store ∧ s'.log = s.log ∧ s'.holder = some e := by
-  unfold Sys.run at h
-  cases hp : prog[t]? with
-  | none => rw [hp] at h; simp at h
-  | some op =>
+/-- while an `edit_state` block holds the lock, no action of another task — a section of it, or a
+cancellation request to it — changes the store, completes an operation or takes the lock away -/
+theorem no_write_inside_open_edit_exec (B : Backend σ) (hlock : ∀ op, B.locks op = true)
+    (hscoped : ∀ op, B.scopedLock op = true)
+    (prog : List COp) (s s' : Sys σ) (e t : Nat) (hh : s.holder = some e) (hne : t ≠ e) (a : Act)
+    (ha : a = .run t ∨ a = .cancel t)
+    (h : Sys.exec B prog s a = some s') : s'.store = s.store ∧ s'.log = s.log ∧ s'.holder = some e := by
+  rcases ha with ha | ha
+  · subst ha
+    simp only [Sys.exec] at h
+    unfold Sys.run at h
+    cases hp : prog[t]? with
+    | none => rw [hp] at h; simp at h
+    | some op =>
+      cases hq : s.pcs[t]? with
+      | none => rw [hp, hq] at h; simp at h
+      | some pc =>
+        rw [hp, hq] at h
+        have : ¬ (e = t) := fun he => hne he.symm
+        cases pc with
+        | done => simp at h
+        | cancelled => simp at h
+        | aborted k => simp at h
+        | idle =>
+          simp only [hlock op, if_true, hh] at h
+          simp only [reduceCtorEq, false_and, if_false, Option.some.injEq] at h
+          subst h
+          exact ⟨rfl, rfl, rfl⟩
+        | waiting =>
+          simp [hh] at h
+        | idleC =>
+          simp only [Option.some.injEq] at h
+          subst h
+          exact ⟨rfl, rfl, hh⟩
+        | waitC fc =>
+          simp only [hscoped op, if_true, Option.some.injEq] at h
+          subst h
+          exact ⟨rfl, rfl, hh⟩
+        | body ran chunks w =>
+          cases chunks with
+          | nil => simp at h
+          | cons c rest =>
+            simp [hh, this, hscoped op] at h
+        | bodyC ran chunks w =>
+          simp [hh, this, hscoped op] at h
+  · subst ha
+    simp only [Sys.exec] at h
+    unfold Sys.cancel at h
     cases hq : s.pcs[t]? with
-    | none => rw [hp, hq] at h; simp at h
+    | none => rw [hq] at h; simp at h
     | some pc =>
-      rw [hp, hq] at h
-      cases pc with
-      | done => simp at h
-      | idle =>
-        simp only [hlock op, if_true, hh] at h
-        simp only [reduceCtorEq, false_and, if_false, Option.some.injEq] at h
-        subst h
-        exact ⟨rfl, rfl, rfl⟩
-      | waiting =>
-        simp [hh] at h
-      | body chunks w =>
-        cases chunks with
-        | nil => simp at h
-        | cons c rest =>
-          have : ¬ (e = t) := fun he => hne he.symm
-          simp [hh, this] at h
+      rw [hq] at h
+      cases pc <;> first
+        | (simp at h; done)
+        | (simp only [Option.some.injEq] at h; subst h; exact ⟨rfl, rfl, hh⟩)
 
 end StateStore
